@@ -94,6 +94,9 @@ pub fn run(ctx: &Ctx, out: &mut CaseOut) {
                 Err(e) => {
                     let sig = if solver_name(choice) == "slg" && rec.nonground_coinductive && matches!(ans, MAnswer::Unique(..) | MAnswer::Definite(..)) && e.contains("definitely false instance") {
                         Some("slg:coinductive-nonground:unsound-definite")
+                    } else if solver_name(choice) == "slg" && e.contains("is not an instance of the definite answer") && nonlinear(ans) {
+                        // F20: guidance with a repeated variable is declared final too early
+                        Some("slg:may-invalidate-nonlinear-guidance")
                     } else if rec.stale_delayed_table && matches!(ans, MAnswer::None) {
                         Some("slg:stale-delayed-answer-table")
                     } else {
@@ -106,5 +109,29 @@ pub fn run(ctx: &Ctx, out: &mut CaseOut) {
         if gi == 0 && out.sample.is_none() {
             out.sample = Some(J::obj().set("program", text.as_str()).set("goal", gtext.as_str()));
         }
+    }
+}
+
+/// Does the definite substitution mention one of its own variables more than once?
+fn nonlinear(a: &MAnswer) -> bool {
+    fn go(t: &MTy, seen: &mut std::collections::BTreeSet<usize>, rep: &mut bool) {
+        match t {
+            MTy::Var(v) => {
+                if !seen.insert(*v) {
+                    *rep = true;
+                }
+            }
+            MTy::App(_, a) => a.iter().for_each(|x| go(x, seen, rep)),
+            _ => {}
+        }
+    }
+    match a {
+        MAnswer::Definite(m, _) => {
+            let mut seen = Default::default();
+            let mut rep = false;
+            m.values().for_each(|t| go(t, &mut seen, &mut rep));
+            rep
+        }
+        _ => false,
     }
 }
